@@ -183,7 +183,8 @@ theorem runOps_ok {w : World} (h : WheelInv w) (self : Nat) (ops : List Op) :
       · exact h1.trans (ih h1.inv)
 
 theorem fireOne_ok {w : World} (h : WheelInv w) (sc : Scripts) (cop : Entry) : StepOK w (fireOne sc w cop) := by
-  unfold fireOne
+  rw [fireOne_eq_spec]
+  unfold fireOneSpec
   split
   · split
     · exact (StepOK.refl h).congr rfl rfl rfl rfl
